@@ -333,6 +333,38 @@ def medium_kwargs(med, n=None):
     return dict(medium=med["name"], temperature=t, visc_model=med["model"])
 
 
+def nd_layout(temps, shape, layout):
+    """The temperature ndarray handed to get_emodulus for a batch of the
+    given shape whose per-event temperatures (flattened, C order) are
+    `temps`: "full" (same shape as the batch), "rows" (shape[:-1] + (1,),
+    needs temperatures constant along the last axis), "cols" (last axis
+    only, needs temperatures constant along all other axes). Falls back to
+    "full" when the temperatures do not have that structure."""
+    T = np.array(temps, dtype=float).reshape(shape)
+    if layout == "rows" and np.all(T == T[..., :1]):
+        return T[..., :1].copy()
+    if layout == "cols":
+        first = T.reshape(-1, shape[-1])[0]
+        if np.all(T == first):
+            return first.copy()
+    return T
+
+
+def nd_call(L, lut_arg, case, med=None):
+    """get_emodulus on the case with the batch arranged as case["nd"]"""
+    nd = case["nd"]
+    shape = tuple(nd["shape"])
+    x = np.array(case["x"], dtype=float).reshape(shape)
+    d = np.array(case["d"], dtype=float).reshape(shape)
+    med = med or case["medium"]
+    kw = {}
+    if med["kind"] == "known" and isinstance(med["temp"], list):
+        kw = dict(temperature=nd_layout(med["temp"], shape,
+                                        nd.get("tlayout", "full")))
+    return call_emod(L, lut_arg, case["cw"], case["fr"], case["px"], med,
+                     x, d, **kw)
+
+
 def call_emod(L, lut_arg, cw, fr, px, med, x, d, **kw):
     from dclab.features import emodulus as em
     args = dict(deform=d, channel_width=cw, flow_rate=fr, px_um=px,
@@ -690,8 +722,14 @@ def run_impl(case, L=None, via=None, scratch=None):
     x = np.array(case["x"], dtype=float)
     d = np.array(case["d"], dtype=float)
     try:
-        e = call_emod(L, arg, case["cw"], case["fr"], case["px"],
-                      case["medium"], x, d)
+        if case.get("nd"):
+            e = np.asarray(nd_call(L, arg, case))
+            if e.shape != tuple(case["nd"]["shape"]):
+                return "shape %r" % (e.shape,)
+            e = e.ravel()
+        else:
+            e = call_emod(L, arg, case["cw"], case["fr"], case["px"],
+                          case["medium"], x, d)
     except Exception as exc:
         return type(exc).__name__
     return [float(v) for v in np.atleast_1d(e)]
@@ -759,8 +797,25 @@ def gen_corr_case(rng, L, n=None, builtin=False, other_px=False,
         # broadcasting error: wrong length
         med["temp"] = med["temp"][:1] * (n + 2)
     x, d, kinds = gen_events(rng, L, cw, px, n, qbits=(6, 14))
-    return dict(lut=lut_to_case(L), cw=cw, fr=fr, px=px, medium=med,
-                x=x, d=d), kinds
+    case = dict(lut=lut_to_case(L), cw=cw, fr=fr, px=px, medium=med,
+                x=x, d=d)
+    if per_event and n >= 2 and len(med["temp"]) == n and \
+            rng.random() < 0.6:
+        # the same events as a non-1-D batch; the model is elementwise, so
+        # it sees the flattened batch with the broadcast temperatures
+        r = rng.random()
+        if r < 0.4 or n % 2:
+            case["nd"] = dict(shape=[n, 1], tlayout="full")
+        elif r < 0.5:
+            case["nd"] = dict(shape=[1, n], tlayout="full")
+        else:
+            rows = n // 2
+            t = med["temp"]
+            lay = rng.choice(["rows", "rows", "full"])
+            if lay == "rows":      # constant along the last axis
+                med["temp"] = [t[i // 2] for i in range(n)]
+            case["nd"] = dict(shape=[rows, 2], tlayout=lay)
+    return case, kinds
 
 
 def correspondence(run):
@@ -836,6 +891,8 @@ def correspondence(run):
                 run.count("corr:finite", sum(1 for v in impl
                                              if not np.isnan(v)))
             count_quota(run, case, "corr")
+            if case.get("nd"):
+                run.count("corr:nd-batch")
             run.corr_checked += 1
             why = compare_model(model, impl, dist, cond)
             if why is not None:
@@ -1663,13 +1720,97 @@ def chk_rewrite(sc, rng, scratch):
                   "dict", (arr, meta))
 
 
+def nd_plan(n, rng):
+    """shape and temperature layout for n events"""
+    opts = [([n, 1], "full"), ([1, n], "full")]
+    for r in (2, 3, 4):
+        if n >= 2 * r:
+            opts += [([r, n // r], "rows"), ([r, n // r], "rows"),
+                     ([r, n // r], "cols"), ([r, n // r], "full")]
+    if n >= 8:
+        opts.append(([2, 2, n // 4], "rows"))
+        opts.append(([2, n // 4, 2], "full"))
+    return rng.choice(opts)
+
+
+def chk_ndbatch(sc, rng):
+    """batches that are not 1-D (column vectors, grids as in dclab's own
+    test_simple_emod, 3-D): the result has the shape of the batch and
+    result[i, j] is what the call on element (i, j) alone returns, with the
+    temperature of that element given as a scalar"""
+    case = sc.case
+    n = sc.x.size
+    if n == 0:
+        return None
+    nd = case.get("nd")
+    if not nd:
+        shape, lay = nd_plan(n, rng)
+        nd = dict(shape=shape, tlayout=lay)
+    shape = tuple(nd["shape"])
+    m = int(np.prod(shape))
+    x, d = sc.x[:m], sc.d[:m]
+    med = sc.med
+    if med["kind"] == "known":
+        t = med["temp"]
+        t = list(t) if isinstance(t, list) else [t]
+        if len(t) != m:
+            t = [t[i % len(t)] for i in range(m)]
+        T = np.array(t, dtype=float).reshape(shape)
+        if not case.get("nd"):
+            # give the temperatures the structure of the layout
+            if nd["tlayout"] == "rows":
+                T = np.broadcast_to(T[..., :1], shape).copy()
+            elif nd["tlayout"] == "cols":
+                T = np.broadcast_to(T.reshape(-1, shape[-1])[0], shape).copy()
+        med = dict(med, temp=[float(v) for v in T.ravel()])
+    c2 = dict(case, x=[float(v) for v in x], d=[float(v) for v in d],
+              medium=med, nd=nd)
+    with np.errstate(all="ignore"):
+        E = np.asarray(nd_call(sc.L, sc.arg, c2))
+    if E.shape != shape:
+        return "batch of shape %r gives a result of shape %r" % (shape,
+                                                                 E.shape)
+    E = E.ravel()
+    sf = Scn(dict(c2, nd=None))
+    _, dist, cond, _ = sf.ref()
+    # elementwise: one call per distinct temperature with that temperature
+    # as a scalar (batch independence of 1-D calls is checked elsewhere),
+    # and a few truly single-element calls
+    if med["kind"] == "known":
+        temps = np.array(med["temp"])
+        exp = np.full(m, np.nan)
+        for tv in sorted(set(med["temp"])):
+            ii = np.where(temps == tv)[0]
+            exp[ii] = np.atleast_1d(sf.f(x=x[ii], d=d[ii],
+                                         med=dict(med, temp=float(tv))))
+        singles = [rng.randrange(m) for _ in range(min(m, 3))]
+        for i in singles:
+            exp[i] = np.atleast_1d(sf.f(x=x[[i]], d=d[[i]],
+                                        med=dict(med, temp=temps[i])))[0]
+    else:
+        exp = np.atleast_1d(sf.f(x=x, d=d))
+    r = close_outside_band(exp, E, dist, cond)
+    if r:
+        i = r[0]
+        idx = tuple(int(v) for v in np.unravel_index(i, shape))
+        tdesc = ""
+        if med["kind"] == "known":
+            tdesc = ", temperature=%r (temperature array of shape %r)" % (
+                med["temp"][i], nd_layout(med["temp"], shape,
+                                          nd["tlayout"]).shape)
+        return ("element %r of the batch of shape %r (x=%r, deform=%r%s): "
+                "get_emodulus=%r, the call on that element alone gives %r" % (
+                    idx, shape, float(x[i]), float(d[i]), tdesc, r[2], r[1]))
+    return None
+
+
 CHECKS = {
     "reference": chk_reference, "batch": chk_batch,
     "scalar_vs_array": chk_scalar_vs_array,
     "proportional": chk_proportional, "rescale": chk_rescale,
     "px0": chk_px0, "nomutation": chk_nomutation, "lutvia": chk_lutvia,
     "dataset": chk_dataset, "isoelastics": chk_isoelastics,
-    "rewrite": chk_rewrite,
+    "rewrite": chk_rewrite, "ndbatch": chk_ndbatch,
 }
 NEED_SCRATCH = ("lutvia", "dataset", "rewrite")
 
@@ -1717,11 +1858,12 @@ def oracle_cases(run):
                 reps = 8 if th else 3
             for _ in range(reps):
                 n = {"reference": 4000 if th else 1500, "batch": 40,
-                     "dataset": 30}.get(chk, 150)
+                     "dataset": 30, "ndbatch": 24}.get(chk, 150)
                 case, kinds = gen_scenario(
                     rng, L, n, nice=rng.random() < 0.5,
                     special=(chk in ("batch", "reference")
-                             and rng.random() < 0.5))
+                             and rng.random() < 0.5),
+                    force_med="per-event" if chk == "ndbatch" else None)
                 case["check"] = chk
                 case["rseed"] = rng.randrange(1 << 30)
                 out.append((case, kinds))
@@ -1733,15 +1875,19 @@ def oracle_cases(run):
         for chk in names:
             if chk == "isoelastics" or (
                     rng.random() < 0.5 and chk not in ("reference", "batch",
-                                                       "rewrite")):
+                                                       "rewrite", "ndbatch")):
                 continue
             n = rng.choice([1, 2, 3, 7, 20, 60])
+            if chk == "ndbatch":
+                n = rng.choice([2, 3, 6, 8, 12, 24])
             case, kinds = gen_scenario(
                 rng, L, n, nice=rng.random() < 0.5,
                 special=(chk in ("batch", "reference")
                          and rng.random() < 0.3),
                 other_px=vol,
-                force_med="per-event" if rng.random() < 0.25 else None)
+                force_med="per-event" if (
+                    rng.random() < (0.8 if chk == "ndbatch" else 0.25))
+                else None)
             case["lut"]["via"] = "tuple"
             case["check"] = chk
             case["rseed"] = rng.randrange(1 << 30)
@@ -1883,8 +2029,48 @@ def run(run):
     oracle(run)
 
 
+def shrink_nd(run, failure):
+    """an N-D batch failure: make the layout explicit, then look for a
+    failing column vector of two events"""
+    import random
+    case = failure["case"]
+    n = len(case["x"])
+    med = case["medium"]
+    best, desc = case, failure["desc"]
+    if not case.get("nd"):
+        shape, lay = nd_plan(n, random.Random(case.get("rseed", 0)))
+        # re-run with the plan written into the case (same behaviour)
+        explicit = dict(case, nd=dict(shape=shape, tlayout=lay))
+    else:
+        explicit = case
+    if med["kind"] == "known" and isinstance(med["temp"], list) and \
+            len(med["temp"]) >= 2 and n >= 2:
+        t = med["temp"]
+        for i in range(min(n, 12)):
+            for j in range(i + 1, min(n, 12)):
+                ti, tj = t[i % len(t)], t[j % len(t)]
+                if ti == tj:
+                    continue
+                c = dict(case, x=[case["x"][i], case["x"][j]],
+                         d=[case["d"][i], case["d"][j]],
+                         medium=dict(med, temp=[ti, tj]),
+                         nd=dict(shape=[2, 1], tlayout="full"))
+                f = run_check(c, run.scratch)
+                if f is not None:
+                    return dict(case=c, desc="[%s] %s" % (c["check"], f),
+                                finding=failure.get("finding"))
+    f = run_check(explicit, run.scratch)
+    if f is not None:
+        best, desc = explicit, "[%s] %s" % (explicit["check"], f)
+    return dict(case=best, desc=desc, finding=failure.get("finding"))
+
+
 def shrink(run, failure):
     case = failure["case"]
+    if case.get("check") == "ndbatch" or case.get("nd"):
+        if "check" not in case:
+            return failure
+        return shrink_nd(run, failure)
     if "x" not in case or "check" not in case or len(case["x"]) <= 1:
         return failure
     best = case
